@@ -241,7 +241,8 @@ class Run:
             self.inconclusive.append("deciding monitor was evaluated 0 times")
         if len(self.nontrivial) < 2:
             self.inconclusive.append("fewer than 2 distinct non-trivial cases")
-        os.makedirs(os.path.join(VERIF, "evidence"), exist_ok=True)
+        evdir = os.environ.get("VF_EVIDENCE_DIR") or os.path.join(VERIF, "evidence")
+        os.makedirs(evdir, exist_ok=True)
         rdir = os.path.join(VERIF, "replays", self.pid)
         replay_paths = []
         if new:
@@ -277,7 +278,7 @@ class Run:
         ev = {"property_id": self.pid, "tier": self.tier, "seed": self.seed, "level": self.level,
               "coverage": cov, "assumptions": self.assumptions,
               "wall_s": round(time.time() - self.t0, 2), "violations": len(new)}
-        with open(os.path.join(VERIF, "evidence", self.pid + ".json"), "w") as fh:
+        with open(os.path.join(evdir, self.pid + ".json"), "w") as fh:
             json.dump(ev, fh, indent=1, sort_keys=False)
             fh.write("\n")
         for _, k in {k["mechanism"]: (v, k) for v, k in hits}.values():
